@@ -669,11 +669,7 @@ func Guarded(limit time.Duration, fn func()) (finished bool, wedgedAt string, st
 	if s1 != "" && onLock(h1) && onLock(h2) && f1 == f2 {
 		for _, l := range strings.Split(f2, "\n") {
 			if strings.HasPrefix(l, "github.com/dappledger/AnnChain/") {
-				l = strings.TrimPrefix(l, "github.com/dappledger/AnnChain/")
-				if k := strings.LastIndex(l, "("); k > 0 {
-					l = l[:k]
-				}
-				return false, l, s2
+				return false, strings.TrimPrefix(l, "github.com/dappledger/AnnChain/"), s2 // (splitStack dropped the arguments)
 			}
 		}
 		return false, "unknown", s2
